@@ -159,6 +159,8 @@ POOL = [
     ("mpoly_nested", "MultiPolygon", [
         [[[0, 0], [40, 0], [40, 400000], [0, 400000]], [[10, 100000], [30, 100000], [30, 300000], [10, 300000]]],
         [[[19, 190000], [21, 190000], [21, 210000], [19, 210000]]]]),
+    # two members that partially overlap (the union is what is buffered: the doubly covered region belongs to the geometry)
+    ("mpoly_overlap", "MultiPolygon", [[[[1, 1000], [3, 1000], [3, 3000], [1, 3000]]], [[[2, 2000], [4, 2000], [4, 4000], [2, 4000]]]]),
     ("mpoly_acute", "MultiPolygon", [[[[1, 1000], [4, 1125], [1, 1250]]], [[[1, 3000], [1.125, 1500], [1.25, 3000]]]]),
 ]
 POOL_IDS = [p[0] for p in POOL]
